@@ -399,9 +399,10 @@ def scratch_dir():
     return base
 
 
-def op_restart(h, tag="r"):
+def op_restart(h, tag="r", twin=False):
     """Crash-restart: only the .npz survives.  The successor gets generators created
-    under the same namespace; the caller synchronises their state."""
+    under the same namespace; the caller synchronises their state.  With twin=True the same file is
+    loaded a second time afterwards (own target, own generators): returns (old chain, twin chain)."""
     fn = os.path.join(scratch_dir(), "%s-%s.npz" % (h.label, tag))
     if os.path.exists(fn):
         os.remove(fn)
@@ -417,13 +418,40 @@ def op_restart(h, tag="r"):
     try:
         h.chain = lib_call("load", build.load_chain, h.kind, fn, h.target,
                            finite_diff=bool(h.cfg["knobs"].get("finite_diff")))
+        tw = None
+        if twin:
+            c.namespace = (h.label + "~" + tag, h.seed_group ^ 0x5A5A5A)
+            tw = lib_call("load (second time)", build.load_chain, h.kind, fn,
+                          targets.make_target(h.cfg["target"], tag=h.label + "~" + tag),
+                          finite_diff=bool(h.cfg["knobs"].get("finite_diff")))
     finally:
         c.namespace = None
         try:
             os.remove(fn)
         except OSError:
             pass
-    return old
+    return (old, tw) if twin else old
+
+
+def twin_step(h, tw):
+    """A second sampler restored from the same file goes on living next to h: one step of it (its failures are
+    its own business).  Returns False when it can no longer step."""
+    c = rctx.get()
+    tag = tw.posterior.tag
+    c.eval_budgets[tag] = 20_000
+    was = c.record
+    c.record = False
+    try:
+        if h.is_ensemble:
+            tw.advance(1)
+        else:
+            _guard_hmc(tw.take_step)
+        return True
+    except (StepExhausted, rctx.Runaway, Exception):  # noqa
+        return False
+    finally:
+        c.record = was
+        c.eval_budgets[tag] = None
 
 
 def cleanup_scratch():
